@@ -1,15 +1,21 @@
 """Generic seeded-search driver shared by all properties.
 
 One integer (VERIF_SEED) decides everything: run i of property P uses PRNG seed
-sha256(P, VERIF_SEED, i).  Workers are forked processes; each executes whole runs, so the schedule
-inside a run never depends on the worker count.  Exit codes of registered commands: 0 = held on
-everything explored (known findings are reported, not failed), 1 = VIOLATION, 2 = harness error.
+sha256(P, VERIF_SEED, i).  The parent process never executes a case itself: batches of runs, every
+candidate of the minimiser, every corpus case and every replay execute in a process *freshly forked
+from the pristine parent*, so that state leaking between runs (labrea keeps process-global state, and
+a change to labrea may add more) cannot make a failure unrepeatable: a violation that needs the runs
+executed before it in the same process is reported with that prefix of cases as part of the replay
+file ("history across runs") and minimised as a whole.
+
+Exit codes of registered commands: 0 = held on everything explored (known findings are reported, not
+failed), 1 = VIOLATION, 2 = harness error.
 """
-import concurrent.futures as cf
 import faulthandler
 import hashlib
 import json
 import multiprocessing as mp
+import multiprocessing.connection as mpc
 import os
 import random
 import subprocess
@@ -21,6 +27,7 @@ VERIF = os.path.dirname(os.path.dirname(os.path.abspath(__file__)))
 KNOWN_FILE = os.path.join(VERIF, "known_findings.json")
 REPLAY_DIR = os.path.join(VERIF, "replays")
 EVIDENCE_DIR = os.path.join(VERIF, "evidence")
+CTX = mp.get_context("fork")
 
 
 def run_seed(prop_id, base_seed, i):
@@ -30,6 +37,10 @@ def run_seed(prop_id, base_seed, i):
 
 def h64(obj):
     return int.from_bytes(hashlib.sha256(repr(obj).encode()).digest()[:8], "big")
+
+
+class HarnessError(Exception):
+    pass
 
 
 class Violation(dict):
@@ -61,6 +72,13 @@ class Result:
         self.violations.append(v)
         return v
 
+    def to_dict(self):
+        return {
+            "violations": [json.loads(json.dumps(dict(v), default=str)) for v in self.violations],
+            "stats": self.stats, "digest": self.digest, "distinct": self.distinct,
+            "sample": json.loads(json.dumps(self.sample, default=str)), "faults": self.faults,
+        }
+
 
 class Property:
     """Base class: a property = generator + deterministic executor with oracles + shrinker."""
@@ -68,6 +86,10 @@ class Property:
     ID = "C00"
     LEVEL = "exploration"
     ENGINE = "history-sim"
+    TECHNIQUE = ""
+    LEVEL_TEXT = ""
+    LEVEL_NOTE = ""
+    DESIGN_REF = ""
     RULE = ""
     ASSUMPTIONS = []
     REAL = ["labrea/* (all modules, unmodified)", "confectioner"]
@@ -108,77 +130,150 @@ def load_known():
 
 def match_known(prop_id, violation, known):
     for f in known.get("findings", []):
-        if f.get("status") != "open" or f.get("property") != prop_id:
+        if f.get("status") != "open" or (f.get("property") != prop_id and prop_id not in f.get("also", [])):
             continue
         m = f.get("match", {})
         if m.get("kind") and m["kind"] != violation["kind"]:
             continue
-        if m.get("signature") and m["signature"] != violation.get("signature"):
-            continue
         if not m.get("signature"):
             continue  # an entry without a specific signature suppresses nothing
+        if m["signature"] != violation.get("signature"):
+            continue
         return f
     return None
 
 
-# --------------------------------------------------------------------------- minimisation
-def same_class(v, kind):
-    return v["kind"] == kind
-
-
-def first_violation(prop, case, kind=None):
+# --------------------------------------------------------------------------- isolation
+def _child_main(conn, fn, args):
     try:
-        res = prop.run_case(case)
-    except Exception:  # a candidate that breaks the harness is not a counterexample
-        return None
-    for v in res.violations:
+        faulthandler.dump_traceback_later(900, exit=True)
+        out = ("ok", fn(*args))
+    except BaseException:  # noqa: BLE001
+        out = ("err", traceback.format_exc())
+    try:
+        conn.send(out)
+    finally:
+        conn.close()
+        os._exit(0)
+
+
+def spawn(fn, args):
+    """Start fn(*args) in a process forked from this (pristine) one. Returns (process, connection)."""
+    parent, child = CTX.Pipe(duplex=False)
+    p = CTX.Process(target=_child_main, args=(child, fn, args))
+    p.start()
+    child.close()
+    return p, parent
+
+
+def collect(p, conn, timeout):
+    if not conn.poll(timeout):
+        p.kill()
+        p.join()
+        raise HarnessError(f"isolated execution exceeded {timeout} s")
+    try:
+        status, payload = conn.recv()
+    except EOFError:
+        p.join()
+        raise HarnessError(f"isolated execution died (exit code {p.exitcode})")
+    finally:
+        conn.close()
+    p.join()
+    if status == "err":
+        raise HarnessError(payload)
+    return payload
+
+
+def isolated(fn, *args, timeout=300):
+    p, conn = spawn(fn, args)
+    return collect(p, conn, timeout)
+
+
+def _exec_sequence(prop, cases):
+    """Run cases one after the other in THIS process; result dict of the last one."""
+    out = None
+    for c in cases:
+        out = prop.run_case(c)
+    return out.to_dict()
+
+
+def run_isolated(prop, case, prefix=()):
+    return isolated(_exec_sequence, prop, list(prefix) + [case])
+
+
+def violation_of(resd, kind=None):
+    for v in resd["violations"]:
         if kind is None or v["kind"] == kind:
             return v
     return None
 
 
-def minimise(prop, case, kind, budget_runs=600, budget_s=25.0):
-    """Greedy delta-debugging: accept a candidate only if the same violation kind recurs."""
+# --------------------------------------------------------------------------- minimisation
+def minimise(prop, case, prefix, kind, budget_runs=500, budget_s=40.0):
+    """Greedy delta debugging; a candidate is accepted only if the same violation kind recurs when the
+    candidate is executed in a freshly forked process."""
     t0 = time.time()
-    runs = 0
+    runs = [0]
+
+    def fails(c, pre):
+        runs[0] += 1
+        try:
+            return violation_of(run_isolated(prop, c, pre), kind) is not None
+        except HarnessError:
+            return False
+
+    def out_of_budget():
+        return runs[0] >= budget_runs or time.time() - t0 > budget_s
+
+    # 1. the prefix (cases executed earlier in the same process): drop chunks
+    prefix = list(prefix)
+    size = max(1, len(prefix) // 2)
+    while prefix and size >= 1 and not out_of_budget():
+        changed = False
+        for start in range(0, len(prefix), size):
+            cand = prefix[:start] + prefix[start + size:]
+            if fails(case, cand):
+                prefix = cand
+                changed = True
+                break
+            if out_of_budget():
+                break
+        if not changed:
+            size //= 2
+    # 2. the failing case itself
     cur = case
     improved = True
-    while improved and runs < budget_runs and time.time() - t0 < budget_s:
+    while improved and not out_of_budget():
         improved = False
         for cand in prop.shrink_candidates(cur):
-            runs += 1
-            if first_violation(prop, cand, kind) is not None:
+            if fails(cand, prefix):
                 cur = cand
                 improved = True
                 break
-            if runs >= budget_runs or time.time() - t0 > budget_s:
+            if out_of_budget():
                 break
-    return cur, runs
+    return cur, prefix, runs[0]
 
 
-# --------------------------------------------------------------------------- worker
-_PROP = None
-_BASE_SEED = 0
-_TIER = "quick"
-_KNOWN = None
+# --------------------------------------------------------------------------- batches
+def _gen(prop, base_seed, tier, i):
+    seed = run_seed(prop.ID, base_seed, i)
+    case = prop.gen_case(random.Random(seed), tier)
+    case["seed"] = seed
+    case["run_index"] = i
+    return case
 
 
-def _worker_batch(args):
-    start, count, deadline = args
-    faulthandler.dump_traceback_later(600, exit=True)
-    prop = _PROP
-    agg = {"runs": 0, "stats": {}, "faults": {}, "distinct": {}, "violations": [], "known": [], "samples": [], "errors": []}
+def _batch(prop, base_seed, tier, start, count, deadline):
+    agg = {"start": start, "runs": 0, "stats": {}, "faults": {}, "distinct": {}, "raw": None, "samples": [], "error": None}
     for i in range(start, start + count):
         if time.time() > deadline:
             break
-        seed = run_seed(prop.ID, _BASE_SEED, i)
         try:
-            case = prop.gen_case(random.Random(seed), _TIER)
-            case["seed"] = seed
-            case["run_index"] = i
+            case = _gen(prop, base_seed, tier, i)
             res = prop.run_case(case)
         except Exception:
-            agg["errors"].append({"run_index": i, "seed": seed, "trace": traceback.format_exc()})
+            agg["error"] = {"run_index": i, "trace": traceback.format_exc()}
             break
         agg["runs"] += 1
         for k, v in res.stats.items():
@@ -187,59 +282,79 @@ def _worker_batch(args):
             agg["faults"][k] = agg["faults"].get(k, 0) + v
         for k, v in res.distinct.items():
             agg["distinct"].setdefault(k, set()).update(v)
-        if res.sample is not None and len(agg["samples"]) < 2:
-            agg["samples"].append(res.sample)
+        if res.sample is not None and len(agg["samples"]) < 1:
+            agg["samples"].append(json.loads(json.dumps(res.sample, default=str)))
         if res.violations:
-            v0 = res.violations[0]
-            small, nruns = minimise(prop, case, v0["kind"])
-            v = first_violation(prop, small, v0["kind"]) or v0
-            v["signature"] = prop.signature(small, v)
-            v["shrink_runs"] = nruns
-            entry = {"violation": dict(v), "case": small, "orig_ops": len(case.get("ops", [])), "seed": seed, "run_index": i}
-            kf = match_known(prop.ID, v, _KNOWN)
-            if kf is not None:
-                entry["known"] = kf["id"]
-                agg["known"].append(entry)
-            else:
-                agg["violations"].append(entry)
-                break
-    faulthandler.cancel_dump_traceback_later()
+            agg["raw"] = {"run_index": i, "case": case, "result": res.to_dict()}
+            break
     agg["distinct"] = {k: list(v) for k, v in agg["distinct"].items()}
     return agg
 
 
-# --------------------------------------------------------------------------- replay
+def triage(prop, base_seed, tier, raw, batch_start, known):
+    """Turn a violation seen inside a batch into a minimised, isolated, replayable entry."""
+    case = raw["case"]
+    kind = raw["result"]["violations"][0]["kind"]
+    prefix = []
+    reproducible = True
+    if violation_of(run_isolated(prop, case), kind) is None:
+        # needs the cases that ran before it in the same process: a history across runs
+        prefix = [_gen(prop, base_seed, tier, j) for j in range(batch_start, raw["run_index"])]
+        if violation_of(run_isolated(prop, case, prefix), kind) is None:
+            reproducible = False
+    if reproducible:
+        small, prefix, nruns = minimise(prop, case, prefix, kind)
+        final = run_isolated(prop, small, prefix)
+        v = violation_of(final, kind)
+    else:
+        small, nruns, final = case, 0, raw["result"]
+        v = raw["result"]["violations"][0]
+    v = dict(v)
+    v["signature"] = prop.signature(small, v)
+    v["shrink_runs"] = nruns
+    entry = {
+        "violation": v, "case": small, "prefix": prefix, "orig_ops": len(case.get("ops", [])), "seed": case["seed"],
+        "run_index": raw["run_index"], "digest": final["digest"], "reproducible_in_isolation": reproducible,
+    }
+    kf = match_known(prop.ID, v, known)
+    if kf is not None and not prefix:
+        entry["known"] = kf["id"]
+    return entry
+
+
+# --------------------------------------------------------------------------- replay files
 def write_replay(prop, entry):
     os.makedirs(REPLAY_DIR, exist_ok=True)
     path = os.path.join(REPLAY_DIR, f"{prop.ID}-{entry['seed']}.json")
-    res = prop.run_case(entry["case"])
     doc = {
         "property": prop.ID,
         "seed": entry["seed"],
         "run_index": entry.get("run_index"),
-        "expected": {"kind": entry["violation"]["kind"], "signature": entry["violation"].get("signature"), "digest": res.digest},
+        "expected": {"kind": entry["violation"]["kind"], "signature": entry["violation"].get("signature"), "digest": entry["digest"]},
         "violation": entry["violation"],
+        "prefix": entry.get("prefix", []),
         "case": entry["case"],
     }
     with open(path, "w") as f:
-        json.dump(doc, f, indent=1, sort_keys=True, default=str)
+        json.dump(doc, f, indent=1, default=str)  # never sort keys: key order of option dictionaries is part of a case
     return path
 
 
 def replay(prop, path, quiet=False):
+    """Execute a replay file directly (recorded spec / ops / faults / schedule, not the seed)."""
     with open(path) as f:
         doc = json.load(f)
-    res = prop.run_case(doc["case"])
+    res = run_isolated(prop, doc["case"], doc.get("prefix", []))
     want = doc.get("expected", {})
-    hit = [v for v in res.violations if v["kind"] == want.get("kind")]
-    same_digest = res.digest == want.get("digest")
+    hit = [v for v in res["violations"] if v["kind"] == want.get("kind")]
+    same_digest = res["digest"] == want.get("digest")
     if not quiet:
-        print(f"replay {path}: violations={[v['kind'] for v in res.violations]} digest={res.digest} same_digest={same_digest}")
-        for v in res.violations[:3]:
+        print(f"replay {path}: violations={[v['kind'] for v in res['violations']]} digest={res['digest']} same_digest={same_digest}")
+        for v in res["violations"][:3]:
             print(json.dumps(v, indent=1, default=str)[:3000])
     if hit:
         print(f"VIOLATION property={prop.ID} replay={path}")
-        print(f"REPLAY-DIGEST {res.digest} {'same' if same_digest else 'DIFFERENT'}")
+        print(f"REPLAY-DIGEST {res['digest']} {'same' if same_digest else 'DIFFERENT'}")
         return 1
     print(f"replay did not reproduce a {want.get('kind')} violation")
     return 0
@@ -262,7 +377,6 @@ def verify_replay_fresh(prop, path):
 
 # --------------------------------------------------------------------------- driver
 def drive(prop, tier, base_seed, workers=None):
-    global _PROP, _BASE_SEED, _TIER, _KNOWN
     t0 = time.time()
     budget = prop.QUICK if tier == "quick" else prop.THOROUGH
     if os.environ.get("VERIF_RUNS"):
@@ -271,114 +385,138 @@ def drive(prop, tier, base_seed, workers=None):
         budget = dict(budget, wall=float(os.environ["VERIF_WALL"]))
     workers = workers or int(os.environ.get("VERIF_WORKERS", "16"))
     known = load_known()
-    _PROP, _BASE_SEED, _TIER, _KNOWN = prop, base_seed, tier, known
     print(f"[{prop.ID}] tier={tier} VERIF_SEED={base_seed} engine={prop.ENGINE} workers={workers} budget={budget}", flush=True)
-
-    known_lines = []
-    # 1. deterministic probes of the open known findings (never affect the exit code)
-    for fid, case in prop.known_probes():
-        f = next((x for x in known.get("findings", []) if x.get("id") == fid and x.get("status") == "open"), None)
-        if f is None:
-            continue
-        v = first_violation(prop, case, f.get("match", {}).get("kind"))
-        if v is not None:
-            known_lines.append(f"KNOWN-FINDING: property={prop.ID} {fid}: {f.get('what', '')}")
-        else:
-            print(f"[{prop.ID}] note: open known finding {fid} no longer reproduces on this tree")
-
-    # 2. regression corpus: minimised counterexamples of defects that were repaired ("fixed:" entries)
-    #    and hand-written probes; each must hold on the current tree.
-    corpus_dir = os.path.join(VERIF, "corpus", prop.ID)
-    corpus_violations = []
-    n_corpus = 0
-    if os.path.isdir(corpus_dir):
-        for name in sorted(os.listdir(corpus_dir)):
-            if not name.endswith(".json"):
-                continue
-            path = os.path.join(corpus_dir, name)
-            with open(path) as f:
-                doc = json.load(f)
-            n_corpus += 1
-            try:
-                cres = prop.run_case(doc["case"])
-            except Exception:
-                print(f"HARNESS-ERROR property={prop.ID} corpus case {name} crashed:\n{traceback.format_exc()[-2000:]}")
-                return 2
-            for v in cres.violations:
-                v["signature"] = prop.signature(doc["case"], v)
-                if match_known(prop.ID, v, known) is None:
-                    corpus_violations.append((path, v))
-                    break
-    if corpus_violations:
-        for path, v in corpus_violations:
-            print(f"[{prop.ID}] corpus case fails again: kind={v['kind']} {json.dumps(v.get('detail'), default=str)[:800]}")
-            print(f"VIOLATION property={prop.ID} replay={path}")
-        agg0 = {"runs": n_corpus, "stats": {}, "faults": {}, "distinct": {}, "violations": [1] * len(corpus_violations), "known": [], "samples": [], "errors": []}
-        write_evidence(prop, tier, base_seed, agg0, time.time() - t0, known_lines, [p for p, _ in corpus_violations])
-        return 1
-
-    deadline = t0 + budget["wall"]
-    total = budget["runs"]
-    batch = max(1, min(50, total // (workers * 4) or 1))
     agg = {"runs": 0, "stats": {}, "faults": {}, "distinct": {}, "violations": [], "known": [], "samples": [], "errors": []}
-    ctx = mp.get_context("fork")
-    harness_error = None
-    with cf.ProcessPoolExecutor(max_workers=workers, mp_context=ctx) as pool:
-        futs = []
-        nxt = 0
-        pending = set()
-
-        def submit():
-            nonlocal nxt
-            while len(pending) < workers * 2 and nxt < total and time.time() < deadline:
-                c = min(batch, total - nxt)
-                pending.add(pool.submit(_worker_batch, (nxt, c, deadline)))
-                nxt += c
-
-        submit()
-        stop = False
-        while pending and not stop:
-            done, _ = cf.wait(pending, timeout=5, return_when=cf.FIRST_COMPLETED)
-            if not done and time.time() > deadline + 300:
-                harness_error = "worker batch did not finish 300 s after the deadline"
-                break
-            for fut in done:
-                pending.discard(fut)
-                try:
-                    a = fut.result()
-                except Exception as e:  # worker died
-                    harness_error = f"worker failed: {e!r}"
-                    stop = True
-                    break
-                agg["runs"] += a["runs"]
-                for k, v in a["stats"].items():
-                    agg["stats"][k] = agg["stats"].get(k, 0) + v
-                for k, v in a["faults"].items():
-                    agg["faults"][k] = agg["faults"].get(k, 0) + v
-                for k, v in a["distinct"].items():
-                    agg["distinct"].setdefault(k, set()).update(v)
-                agg["known"].extend(a["known"])
-                agg["violations"].extend(a["violations"])
-                agg["errors"].extend(a["errors"])
-                if len(agg["samples"]) < 3:
-                    agg["samples"].extend(a["samples"][: 3 - len(agg["samples"])])
-                if agg["violations"] or agg["errors"]:
-                    stop = True
-            if not stop:
-                submit()
-        for fut in pending:
-            fut.cancel()
-        if stop or harness_error:
-            # do not wait for stragglers
-            for p in list(getattr(pool, "_processes", {}).values()):
-                try:
-                    p.terminate()
-                except Exception:
-                    pass
-
-    wall = time.time() - t0
-    exit_code = 0
+    known_lines = []
     replay_paths = []
+    harness_error = None
+
+    def finish(exit_code):
+        wall = time.time() - t0
+        write_evidence(prop, tier, base_seed, agg, wall, known_lines, replay_paths)
+        rate = agg["runs"] / wall if wall > 0 else 0
+        print(f"[{prop.ID}] runs={agg['runs']} wall={wall:.1f}s ({rate * 3600:.0f} runs/h) violations={len(agg['violations'])} "
+              f"known={len(agg['known'])} exit={exit_code}")
+        return exit_code
+
+    try:
+        # 1. deterministic probes of the open known findings (never affect the exit code)
+        for fid, case in prop.known_probes():
+            f = next((x for x in known.get("findings", []) if x.get("id") == fid and x.get("status") == "open"), None)
+            if f is None:
+                continue
+            v = violation_of(run_isolated(prop, case), f.get("match", {}).get("kind"))
+            if v is not None:
+                known_lines.append(f"KNOWN-FINDING: property={prop.ID} {fid}: {f.get('what', '')}")
+            else:
+                print(f"[{prop.ID}] note: open known finding {fid} no longer reproduces on this tree")
+
+        # 2. regression corpus: minimised counterexamples of repaired defects ("fixed:" entries) and
+        #    hand-written probes; each must hold on the current tree.
+        corpus_dir = os.path.join(VERIF, "corpus", prop.ID)
+        n_corpus = 0
+        if os.path.isdir(corpus_dir):
+            for name in sorted(os.listdir(corpus_dir)):
+                if not name.endswith(".json"):
+                    continue
+                path = os.path.join(corpus_dir, name)
+                with open(path) as f:
+                    doc = json.load(f)
+                n_corpus += 1
+                cres = run_isolated(prop, doc["case"], doc.get("prefix", []))
+                for v in cres["violations"]:
+                    v["signature"] = prop.signature(doc["case"], v)
+                    if match_known(prop.ID, v, known) is None:
+                        print(f"[{prop.ID}] corpus case fails again: kind={v['kind']} {json.dumps(v.get('detail'), default=str)[:800]}")
+                        print(f"VIOLATION property={prop.ID} replay={path}")
+                        agg["violations"].append({"violation": v})
+                        replay_paths.append(path)
+                        break
+        agg["stats"]["corpus_cases"] = n_corpus
+        if agg["violations"]:
+            for line in known_lines:
+                print(line)
+            return finish(1)
+
+        # 3. seeded search, batches in freshly forked processes
+        deadline = t0 + budget["wall"]
+        total = budget["runs"]
+        batch = max(10, min(2000, total // (workers * 6) or 1))
+        nxt = 0
+        live = {}  # connection -> (process, start)
+        raw_hits = []
+        stop = False
+        while (live or (nxt < total and time.time() < deadline)) and not harness_error:
+            while not stop and len(live) < workers and nxt < total and time.time() < deadline:
+                c = min(batch, total - nxt)
+                p, conn = spawn(_batch, (prop, base_seed, tier, nxt, c, deadline))
+                live[conn] = (p, nxt, time.time())
+                nxt += c
+            if not live:
+                break
+            ready = mpc.wait(list(live), timeout=5)
+            now = time.time()
+            for conn in list(live):
+                p, start, began = live[conn]
+                if conn in ready:
+                    del live[conn]
+                    try:
+                        a = collect(p, conn, 10)
+                    except HarnessError as e:
+                        harness_error = f"batch starting at run {start}: {e}"
+                        continue
+                    agg["runs"] += a["runs"]
+                    for k, v in a["stats"].items():
+                        agg["stats"][k] = agg["stats"].get(k, 0) + v
+                    for k, v in a["faults"].items():
+                        agg["faults"][k] = agg["faults"].get(k, 0) + v
+                    for k, v in a["distinct"].items():
+                        agg["distinct"].setdefault(k, set()).update(v)
+                    if len(agg["samples"]) < 3:
+                        agg["samples"].extend(a["samples"][: 3 - len(agg["samples"])])
+                    if a["error"]:
+                        agg["errors"].append(a["error"])
+                        stop = True
+                    if a["raw"]:
+                        raw_hits.append((a["raw"], a["start"]))
+                        stop = True
+                elif now > max(deadline, began) + 600:
+                    p.kill()
+                    del live[conn]
+                    harness_error = f"batch starting at run {start} did not finish 600 s after the deadline"
+            if stop:
+                for conn, (p, _, _) in list(live.items()):
+                    p.kill()
+                    p.join()
+                    conn.close()
+                live.clear()
+                break
+
+        # 4. triage of what the batches saw (isolation, minimisation, known-finding match)
+        for raw, start in sorted(raw_hits, key=lambda x: x[0]["run_index"])[:4]:
+            entry = triage(prop, base_seed, tier, raw, start, known)
+            (agg["known"] if "known" in entry else agg["violations"]).append(entry)
+
+        # 5. property-specific second phase (e.g. re-execution in fresh interpreters)
+        if hasattr(prop, "post_phase") and not agg["violations"] and not agg["errors"] and not harness_error:
+            def rng_cases(n):
+                return [_gen(prop, base_seed, tier, i) for i in range(n)]
+
+            for case, resd in prop.post_phase(tier, base_seed, rng_cases):
+                agg["stats"]["post_phase_cases"] = agg["stats"].get("post_phase_cases", 0) + 1
+                for k, v in resd["stats"].items():
+                    agg["stats"][k] = agg["stats"].get(k, 0) + v
+                for k, v in resd["faults"].items():
+                    agg["faults"][k] = agg["faults"].get(k, 0) + v
+                if resd["violations"] and not agg["violations"]:
+                    entry = triage(prop, base_seed, tier, {"case": case, "run_index": case["run_index"], "result": resd}, case["run_index"], known)
+                    (agg["known"] if "known" in entry else agg["violations"]).append(entry)
+    except HarnessError as e:
+        harness_error = str(e)
+    except Exception:
+        harness_error = traceback.format_exc()
+
+    exit_code = 0
     for fid in sorted({e["known"] for e in agg["known"]}):
         f = next(x for x in known["findings"] if x["id"] == fid)
         line = f"KNOWN-FINDING: property={prop.ID} {fid}: {f.get('what', '')}"
@@ -391,7 +529,8 @@ def drive(prop, tier, base_seed, workers=None):
         ok, tail = verify_replay_fresh(prop, path)
         v = entry["violation"]
         print(f"[{prop.ID}] violation kind={v['kind']} signature={v.get('signature')} run_index={entry['run_index']} seed={entry['seed']} "
-              f"ops {entry['orig_ops']}->{len(entry['case'].get('ops', []))} replay_reproduces_in_fresh_process={ok}")
+              f"ops {entry['orig_ops']}->{len(entry['case'].get('ops', []))} prefix_cases={len(entry.get('prefix', []))} "
+              f"replay_reproduces_in_fresh_process={ok}")
         print(json.dumps(v.get("detail"), default=str)[:1500])
         if not ok:
             print(f"[{prop.ID}] HARNESS-WARNING replay check: {tail}")
@@ -404,14 +543,10 @@ def drive(prop, tier, base_seed, workers=None):
         if exit_code == 0:
             exit_code = 2
     if harness_error:
-        print(f"HARNESS-ERROR property={prop.ID} {harness_error}")
+        print(f"HARNESS-ERROR property={prop.ID} {harness_error[-3000:]}")
         if exit_code == 0:
             exit_code = 2
-    write_evidence(prop, tier, base_seed, agg, wall, known_lines, replay_paths)
-    rate = agg["runs"] / wall if wall > 0 else 0
-    print(f"[{prop.ID}] runs={agg['runs']} wall={wall:.1f}s ({rate * 3600:.0f} runs/h) violations={len(agg['violations'])} "
-          f"known={len(agg['known'])} exit={exit_code}")
-    return exit_code
+    return finish(exit_code)
 
 
 def write_evidence(prop, tier, base_seed, agg, wall, known_lines, replay_paths):
@@ -435,8 +570,8 @@ def write_evidence(prop, tier, base_seed, agg, wall, known_lines, replay_paths):
         "known_findings_reported": known_lines,
         "replays": replay_paths,
         "engine": prop.ENGINE,
+        "isolation": "every batch of runs, minimiser candidate, corpus case and replay executes in a process freshly forked from a parent that never runs a case",
     }
-    cov["corpus_cases_replayed"] = len([n for n in os.listdir(os.path.join(VERIF, "corpus", prop.ID)) if n.endswith(".json")]) if os.path.isdir(os.path.join(VERIF, "corpus", prop.ID)) else 0
     cov.update(prop.extra_evidence(tier, base_seed))
     doc = {
         "property_id": prop.ID,
